@@ -624,6 +624,16 @@ class _SetOperation(Selectable, Term):  # type:ignore[misc]
     def __sub__(self, other: "QueryBuilder") -> "Self":  # type:ignore[override]
         return self.minus(other)
 
+    def __eq__(self, other: Any) -> bool:  # type:ignore[override]
+        # like QueryBuilder: a row source compares as a boolean (by alias), so `source in [...]` tests are meaningful
+        return isinstance(other, _SetOperation) and self.alias == other.alias
+
+    def __ne__(self, other: Any) -> bool:  # type:ignore[override]
+        return not self.__eq__(other)
+
+    def __hash__(self) -> int:
+        return hash(self.alias)
+
     def __str__(self) -> str:
         return self.get_sql(DEFAULT_SQL_CONTEXT)
 
